@@ -94,6 +94,10 @@ impl From<syn::Path> for TraitBound {
 
 impl PartialEq for TraitBound {
     fn eq(&self, other: &Self) -> bool {
+        if self.0.leading_colon.is_some() != other.0.leading_colon.is_some() {
+            return false;
+        }
+
         let mut first_iter = self.0.segments.iter().rev();
         let mut second_iter = other.0.segments.iter().rev();
 
@@ -162,6 +166,11 @@ impl PartialOrd for TraitBound {
 
 impl Ord for TraitBound {
     fn cmp(&self, other: &Self) -> core::cmp::Ordering {
+        let res = (self.0.leading_colon.is_some()).cmp(&other.0.leading_colon.is_some());
+        if res != core::cmp::Ordering::Equal {
+            return res;
+        }
+
         let mut first_iter = self.0.segments.iter().rev();
         let mut second_iter = other.0.segments.iter().rev();
 
@@ -224,6 +233,8 @@ impl Ord for TraitBound {
 
 impl core::hash::Hash for TraitBound {
     fn hash<H: core::hash::Hasher>(&self, state: &mut H) {
+        self.0.leading_colon.is_some().hash(state);
+
         let mut iter = self.0.segments.iter().rev();
         let last_elem = iter.next().unwrap();
 
